@@ -183,6 +183,33 @@ APPEND = {
     ("C07_mutex_guard_once", "mutex_guard_once", "a thread never owns two guards of one mutex (recursive lock deadlocks, recursive try_lock fails)"),
     ("C07_recursive_read_corrupt", "recursive_read_corrupt", "witness (computed): after a recursive read the runtime's reader SET and the std lock's guard COUNT disagree and the wrapper's `RwLock state corrupt` panic is what the run ends with"),
  ])],
+ "C10": [("LV.CheckFacts LV.SyncFacts LV.ExecFacts LV.SyncMono LV.CountFacts LV.DeadlockFacts LV.LeakFacts", "The leak check against the harness-level truth, for whole iterations (LeakFacts.v)", [
+    ("C10_iteration_leak_iff", "iteration_leak_iff", "EXACT: an iteration ends with a leak panic iff its run finished and the leak scan of the final objects finds that entry first; no micro-step and no run ever raises it"),
+    ("C10_iteration_after_panic", "iteration_after_panic", "after a failure the leak check is not run"),
+    ("C10_arc_leak_iff", "arc_leak_iff", "finished disciplined iteration: Arc k is reported iff one of its handles is still alive (no drop is in flight at the end: proved)"),
+    ("C10_chan_leak_iff", "chan_leak_iff", "a channel is reported iff its runtime message count is positive, which is the length of the std queue while the receiver lives"),
+    ("C10_track_leak_iff", "track_leak_iff", "a tracked allocation is reported iff it was never dropped"),
+    ("C10_iteration_done_iff", "iteration_done_iff", "an iteration finishes normally iff nothing declared leaks (and no block_on waker clone is left registered)"),
+    ("C10_true_leak_is_reported", "true_leak_is_reported", "every true leak is reported (at that entry or an earlier leaking one)"),
+    ("C10_leak_reported_is_true", "leak_reported_is_true", "every reported leak is true and is the first one in object order"),
+    ("C10_send_after_drop_reported", "send_after_drop_reported", "witness (computed) of the behaviour repaired by the fix commit for mpsc: see known_findings.json"),
+ ])],
+ "C05": [("LV.ExecFacts LV.SyncMono LV.DeadlockFacts", "Run-level statements (DeadlockFacts.v)", [
+    ("C05_deadlock_only_from_schedule", "exec_micro_deadlock_only_from_schedule", "the deadlock panic is raised by Execution::schedule and nowhere else"),
+    ("C05_run_deadlock_no_runnable", "run_deadlock_no_runnable", "SOUND: when a run (not replaying a stored prefix) ends with the deadlock panic, every thread is Blocked or Terminated, one is Blocked, and the reported states are the thread states"),
+    ("C05_iteration_deadlock_exact", "iteration_deadlock_exact", "the same for whole iterations"),
+    ("C05_run_done_all_terminated", "run_done_all_terminated", "a run that finishes has terminated every thread: nothing is silently left blocked"),
+    ("C05_blocked_forever_is_reported", "blocked_forever_is_reported", "COMPLETE per state: a scheduling call in a state where everything is Blocked/Terminated and something is Blocked never returns normally"),
+ ])],
+ "C04": [("LV.SyncFacts LV.ExecFacts LV.SyncMono LV.ClockFacts", "Well-formedness of the vector clocks over whole runs (ClockFacts.v)", [
+    ("C04_run_clock_wf", "run_clock_wf", "in every state of every run nobody knows more about a thread than the thread itself: every thread clock, released view, object view, store view, access stamp and the SeqCst clock is bounded componentwise by the owners' own components"),
+    ("C04_clock_wf_caus", "clock_wf_caus", "in particular for thread clocks"),
+    ("C04_own_component_increases", "own_component_increases", "every tracked access (cell read/write, atomic load/store/RMW, fence) strictly advances the accessing thread's own component first: two accesses of one thread never carry the same stamp"),
+    ("C04_cell_write_stamp", "cell_write_stamp", "the stamp a cell records for a write is the writer's own component at that moment"),
+    ("C04_seen_only_if_acquired", "seen_only_if_acquired", "a thread passes the race test against an access of thread t only if its clock has acquired t's component of that access"),
+    ("C04_cell_write_allowed_iff", "cell_write_allowed_iff", "the write check in terms of stamps"),
+    ("C04_unsync_access_keeps_clock", "unsync_access_keeps_clock", "observed: unsync_load / with_mut do not advance the clock (they are not synchronisation operations)"),
+ ])],
  "C09": [("LV.CountFacts", "Counting invariants over whole runs (CountFacts.v)", [
     ("C09_run_chan_inv", "run_chan_inv", "EVERY run of EVERY program: runtime message count = number of queued views = length of the std queue (while the receiver lives)"),
     ("C09_send_appends_one", "send_appends_one", "a send appends exactly its value at the back"),
